@@ -10,7 +10,7 @@ use std::{
 	os::unix::fs::FileExt,
 	path::{Path, PathBuf},
 	sync::{
-		atomic::{AtomicBool, AtomicU64, Ordering},
+		atomic::{AtomicBool, AtomicI64, AtomicU64, Ordering},
 		Mutex,
 	},
 };
@@ -62,6 +62,84 @@ pub static ISSUED: AtomicU64 = AtomicU64::new(0);
 /// call is not), and the call is slowed down by this many microseconds ("slow disk").
 pub static THREADED: AtomicBool = AtomicBool::new(false);
 pub static MSYNC_DELAY_US: AtomicU64 = AtomicU64::new(0);
+
+/// EIO mode (C16, real worker threads): the interposed write / sync / truncate / unlink / mmap
+/// calls on files of `EIO_ROOT` succeed this many more times and fail with EIO from then on, on
+/// whatever thread they are made. -1 = off.
+pub static EIO_AFTER: AtomicI64 = AtomicI64::new(-1);
+pub static EIO_FAILED_CALLS: AtomicU64 = AtomicU64::new(0);
+pub static EIO_ROOT: Mutex<Option<PathBuf>> = Mutex::new(None);
+
+pub fn eio_arm(root: &Path, after: i64) {
+	*EIO_ROOT.lock().unwrap_or_else(|e| e.into_inner()) = Some(root.to_path_buf());
+	EIO_FAILED_CALLS.store(0, Ordering::SeqCst);
+	EIO_AFTER.store(after, Ordering::SeqCst);
+}
+
+pub fn eio_disarm() -> u64 {
+	EIO_AFTER.store(-1, Ordering::SeqCst);
+	EIO_FAILED_CALLS.load(Ordering::SeqCst)
+}
+
+fn eio_tick() -> bool {
+	let mut fail = false;
+	let _ = EIO_AFTER.fetch_update(Ordering::SeqCst, Ordering::SeqCst, |v| {
+		if v > 0 {
+			fail = false;
+			Some(v - 1)
+		} else {
+			fail = v == 0;
+			None
+		}
+	});
+	if fail {
+		EIO_FAILED_CALLS.fetch_add(1, Ordering::SeqCst);
+	}
+	fail
+}
+
+/// Should this call on `fd` fail? (counts the call when the file belongs to the root)
+pub fn eio_fd(fd: i32) -> bool {
+	if EIO_AFTER.load(Ordering::Relaxed) < 0 || IN_HOOK.with(|h| h.get()) {
+		return false
+	}
+	let root = match EIO_ROOT.lock().unwrap_or_else(|e| e.into_inner()).clone() {
+		Some(r) => r,
+		None => return false,
+	};
+	match std::fs::read_link(format!("/proc/self/fd/{fd}")) {
+		Ok(p) if p.parent() == Some(&root) && p.file_name().map_or(false, |n| n != "lock") => eio_tick(),
+		_ => false,
+	}
+}
+
+pub fn eio_path(path: &Path) -> bool {
+	if EIO_AFTER.load(Ordering::Relaxed) < 0 || IN_HOOK.with(|h| h.get()) {
+		return false
+	}
+	let root = EIO_ROOT.lock().unwrap_or_else(|e| e.into_inner()).clone();
+	if root.is_some() && path.parent() == root.as_deref() {
+		return eio_tick()
+	}
+	false
+}
+
+/// msync: by mapped address (needs a tracker started for the same root)
+pub fn eio_addr(addr: usize) -> bool {
+	if EIO_AFTER.load(Ordering::Relaxed) < 0 || IN_HOOK.with(|h| h.get()) {
+		return false
+	}
+	let mut hit = false;
+	{
+		let g = TRACKER.lock().unwrap_or_else(|e| e.into_inner());
+		if let Some(t) = g.as_ref() {
+			if let Some((b, (l, _, _))) = t.maps.range(..=addr).next_back() {
+				hit = addr < b + l;
+			}
+		}
+	}
+	hit && eio_tick()
+}
 
 pub static TRACKER: Mutex<Option<Tracker>> = Mutex::new(None);
 
